@@ -124,7 +124,10 @@ func normalizeHeaderValue(field, value string) string {
 		return normalizeOrderInsensitive(value)
 
 	case hasNormalizationHeader(normalizationHeader.byCaseInsensitive, field):
-		return strings.ToLower(value)
+		// ASCII only: strings.ToLower would also fold non-ASCII letters and
+		// replace every byte that is not valid UTF-8 (legal obs-text) by U+FFFD,
+		// so that different values compare equal.
+		return lowerASCII(value)
 
 	case hasNormalizationHeader(normalizationHeader.byTimeInsensitive, field):
 		return strings.TrimSpace(value)
@@ -132,7 +135,7 @@ func normalizeHeaderValue(field, value string) string {
 	case field == "Authorization":
 		parts := strings.SplitN(value, " ", 2)
 		if len(parts) == 2 {
-			return strings.ToLower(parts[0]) + " " + parts[1]
+			return lowerASCII(parts[0]) + " " + parts[1]
 		}
 		return value
 
